@@ -33,7 +33,12 @@ def case_strategy():
         if draw(st.integers(0, 3)) == 0:
             rc['centres'] = [[draw(st.sampled_from([0, 0, 1, 2, 7, 50, 300])), draw(st.sampled_from([-0.5, 0.0, 0.0, 0.3])),
                               draw(st.sampled_from([-0.25, 0.0, 0.0, 0.6]))] for _ in range(draw(st.integers(1, 3)))]
-        return {'k': 'gen', 'rc': rc}
+        c = {'k': 'gen', 'rc': rc}
+        if draw(st.integers(0, 2)) == 0:
+            one = st.one_of(st.tuples(st.just('block_order'), st.sampled_from([None, 'layer_column', 'dmplex'])),
+                            st.tuples(st.just('atmosphere_type'), st.sampled_from([0, 1, 2])))
+            c['setters'] = [list(x) for x in draw(st.lists(one, min_size=1, max_size=3))]
+        return c
     return s()
 
 
@@ -259,6 +264,15 @@ def run_case(case, R):
         if bad:
             for b in bad: R.exclude('input:' + b)
             R.label('skipped:invalid-input'); return
+        # header options that were changed through their property setters before the write (the last value counts)
+        for name, v in case.get('setters') or []:
+            R.label('setter:' + name)
+            try:
+                setattr(g, name, v)
+            except Exception as e:
+                if 'not supported by DMPlex ordering' in str(e):        # documented refusal (columns with > 4 nodes): not a case
+                    R.label('setter:dmplex-refused'); return
+                with R.lib('set-' + name): raise
         run_geometry(R, g, [])
 
 
